@@ -2,17 +2,18 @@
    what a connection holds for its peer's input:
      rawInputBuf (rest of the current datagram), handBuf (handshake bytes not yet handed up),
      pendingFragments (reassembly buffers, Model/Fragment.v), retryCount, fragmentReads,
-     handLenAtEntry (local variable of readRecordOrCCS), and the number of readRecordOrCCS frames
-     that retryReadRecord has put on the stack.
+     handLenAtEntry (local variable of readRecordOrCCS).
    Modelled, following the library as it is now (the fixes that touch this code: a747200, 593205a,
-   1e7de38, 6b259b8, and the record-layer drop rules of 73e5128 / 627c7bd / ea20d51 / 1e457f3):
+   1e7de38, 6b259b8, bfc7028, and the record-layer drop rules of 73e5128 / 627c7bd / ea20d51 /
+   1e457f3):
    readDatagram (a loop that skips datagrams from other source addresses; the maxCiphertext+13 byte
    read buffer), readRecordOrCCS (one loop iteration per record: "return once handBuf grew instead
    of reading another datagram", header checks, epoch filter, decryption result, stray-CCS drop,
-   replay drop, maxPlaintext, the record-type switch with its continue / return / retry paths,
+   replay drop, maxPlaintext, the record-type switch with its continue / return paths,
    deferredCCS, the 2*MSL dwell retransmission; on an established connection malformed datagrams
-   and records that fail authentication are discarded silently), retryReadRecord (a recursion: a
-   new frame of readRecordOrCCS with its own handLenAtEntry), readChangeCipherSpec, readHandshake
+   and records that fail authentication are discarded silently), countUselessRecord (a warning
+   alert is counted and the loop goes on: the record reader does not call itself, there is one
+   frame of readRecordOrCCS and one handLenAtEntry per call), readChangeCipherSpec, readHandshake
    (fragmentReads limit, the two waiting loops, maxHandshake, fragment bounds, the limit on the
    number of reassembly buffers, reassembly through Fragment.rh_step).
    Not in the state because the code keeps nothing for it: what is written (writeFlight 5831190,
@@ -22,9 +23,12 @@
    window verdicts [fresh], the clock of the dwell period [dwell_time] / [has_flight], and the
    handshake layer [on_msg] / [on_ccs] as in Model/ConnT.v.
    Ghost fields (not in the Go state): d_n (records seen: index into the oracles), d_calls
-   (1 + readHandshake calls started after the first thing the handshake layer read).
-   The code before fixes 593205a (K13), 1e7de38 (K12), 6b259b8 (K14) is kept as the named
-   regression definitions read_datagram_K13, ddrive_K12 / dafter_K12 / drun_K12, drun_K14.
+   (1 + readHandshake calls started after the first thing the handshake layer read), d_frames
+   (frames of readRecordOrCCS beneath the running one: written only by the pre-fix definitions
+   dretry_or_die_K15 / dafter_K15, nothing in the code as it is touches it).
+   The code before fixes 593205a (K13), 1e7de38 (K12), 6b259b8 (K14), bfc7028 (K15) is kept as the
+   named regression definitions read_datagram_K13, ddrive_K12 / dafter_K12 / drun_K12, drun_K14,
+   dretry_or_die_K15 / process_K15 / dafter_K15 / drun_K15.
    No proofs in this file. *)
 From V Require Export Model.Codec Model.ConnT.
 From V Require Export Model.Fragment.
@@ -149,9 +153,15 @@ Section DMachine.
   (* a new frame of readRecordOrCCS: handLenAtEntry := c.handBuf.Len() *)
   Definition enter_call (c : dconn) : dconn := set_entry c (length (d_hand c)).
 
-  (* retryReadRecord: count, give up above maxUselessRecords, otherwise call readRecordOrCCS again:
-     one more frame on the stack, with its own handLenAtEntry *)
+  (* countUselessRecord: count, give up above maxUselessRecords; the caller (the warning-alert case)
+     goes on with its loop *)
   Definition dretry_or_die (c : dconn) : dconn :=
+    let r := Datatypes.S (d_retry c) in
+    if maxUselessRecords <? r then dkill (set_retry c r) else set_retry c r.
+
+  (* before bfc7028 (finding K15): retryReadRecord counted likewise and then called readRecordOrCCS
+     again: one more frame on the stack, with its own handLenAtEntry *)
+  Definition dretry_or_die_K15 (c : dconn) : dconn :=
     let r := Datatypes.S (d_retry c) in
     if maxUselessRecords <? r then dkill (set_retry c r)
     else enter_call (set_frames (set_retry c r) (Datatypes.S (d_frames c))).
@@ -174,12 +184,15 @@ Section DMachine.
   (* ---------------- one iteration of the loop in readRecordOrCCS ---------------- *)
   (* the record-type switch; c already has rawInputBuf advanced past the record (rest);
      idx = number of the record (for the oracles), hs_done = handshakeComplete,
-     expect = the local expectChangeCipherSpec *)
-  Definition p_alert (c : dconn) (data : bytes) : dconn * act :=
+     expect = the local expectChangeCipherSpec.  The *_with definitions take what the
+     warning-alert case does after c.rawInputBuf = nil as an argument: countUselessRecord in the
+     code as it is (p_alert, dispatch, p_body, process below), retryReadRecord before bfc7028
+     (process_K15) *)
+  Definition p_alert_with (retry : dconn -> dconn) (c : dconn) (data : bytes) : dconn * act :=
     match data with
     | [lvl; code] =>
         if (code =? 0)%N then (dkill c, Return)                               (* close_notify *)
-        else if (lvl =? 1)%N then (dretry_or_die (set_raw c []), Continue)    (* warning: dropped, with the rest of its datagram *)
+        else if (lvl =? 1)%N then (retry (set_raw c []), Continue)            (* warning: dropped, with the rest of its datagram *)
         else (dkill c, Return)
     | _ => (dkill c, Return)
     end.
@@ -214,8 +227,8 @@ Section DMachine.
     let c := set_hand c (d_hand c ++ data) in
     if (dRecordHeaderLen <=? length rest) && (nth0 rest 0 =? 22)%N then (c, Continue) else (c, Return).
 
-  Definition dispatch (c : dconn) (typ : N) (data rest : bytes) (idx : nat) (hs_done expect : bool) : dconn * act :=
-    if (typ =? 21)%N then p_alert c data
+  Definition dispatch_with (retry : dconn -> dconn) (c : dconn) (typ : N) (data rest : bytes) (idx : nat) (hs_done expect : bool) : dconn * act :=
+    if (typ =? 21)%N then p_alert_with retry c data
     else if (typ =? 20)%N then p_ccs c data rest idx hs_done expect
     else if (typ =? 23)%N then p_app c data hs_done expect
     else if (typ =? 22)%N then p_hs c data rest idx hs_done expect
@@ -224,7 +237,7 @@ Section DMachine.
   (* after the header checks: epoch filter (the dwell retransmission it may trigger changes nothing
      here), decryption (a failure is fatal during the handshake, a silent drop after it), drops,
      size checks *)
-  Definition p_body (c : dconn) (typ epoch : N) (body rest : bytes) (idx : nat) (hs_done expect : bool) : dconn * act :=
+  Definition p_body_with (retry : dconn -> dconn) (c : dconn) (typ epoch : N) (body rest : bytes) (idx : nat) (hs_done expect : bool) : dconn * act :=
     if negb (epoch =? d_epoch c)%N then (set_raw c rest, Continue) else
     match dec (d_cipher c) typ body with
     | None => if hs_done then (set_raw c rest, Continue) else (dkill c, Return)
@@ -234,12 +247,12 @@ Section DMachine.
         if maxPlaintext <? length data then (dkill c, Return) else
         if negb (d_cipher c) && (typ =? 23)%N then (dkill c, Return) else
         let c := if negb (typ =? 21)%N && negb (typ =? 20)%N && (0 <? length data) then set_retry c 0 else c in
-        dispatch (set_raw c rest) typ data rest idx hs_done expect
+        dispatch_with retry (set_raw c rest) typ data rest idx hs_done expect
     end.
 
   (* precondition: 13 <= |rawInputBuf|.  After completion a datagram whose head is not a
      well-formed record of the connection's version is dropped as a whole *)
-  Definition process (c0 : dconn) : dconn * act :=
+  Definition process_with (retry : dconn -> dconn) (c0 : dconn) : dconn * act :=
     let raw := d_raw c0 in
     let typ := nth0 raw 0 in
     let vers := b16 (nth0 raw 1) (nth0 raw 2) in
@@ -255,8 +268,16 @@ Section DMachine.
     if hs_done && ((maxCiphertext <? n) || (length raw <? dRecordHeaderLen + n)) then drop else
     if maxCiphertext <? n then (dkill c0, Return) else
     if length raw <? dRecordHeaderLen + n then (dkill c0, Return) else
-    p_body (set_n c0 (Datatypes.S (d_n c0))) typ epoch
+    p_body_with retry (set_n c0 (Datatypes.S (d_n c0))) typ epoch
            (firstn n (skipn dRecordHeaderLen raw)) (skipn (dRecordHeaderLen + n) raw) (d_n c0) hs_done expect.
+
+  (* the code as it is *)
+  Definition p_alert (c : dconn) (data : bytes) : dconn * act := p_alert_with dretry_or_die c data.
+  Definition dispatch (c : dconn) (typ : N) (data rest : bytes) (idx : nat) (hs_done expect : bool) : dconn * act :=
+    dispatch_with dretry_or_die c typ data rest idx hs_done expect.
+  Definition p_body (c : dconn) (typ epoch : N) (body rest : bytes) (idx : nat) (hs_done expect : bool) : dconn * act :=
+    p_body_with dretry_or_die c typ epoch body rest idx hs_done expect.
+  Definition process (c0 : dconn) : dconn * act := process_with dretry_or_die c0.
 
   (* ---------------- readHandshake on what handBuf holds ---------------- *)
   (* a new readHandshake call *)
@@ -320,11 +341,10 @@ Section DMachine.
      or clears deferredCCS *)
   Definition dfuel (c : dconn) : nat := Datatypes.S (Datatypes.S (length (d_hand c))).
 
-  (* readRecordOrCCS returned to its caller (every frame of the retry recursion returns with it);
-     the caller goes on and, if the connection is still there, will call readRecordOrCCS again *)
+  (* readRecordOrCCS returned to its caller; the caller goes on and, if the connection is still
+     there, will call readRecordOrCCS again *)
   Definition dafter (c : dconn) : dconn :=
     if negb (d_alive c) then c else
-    let c := set_frames c 0 in
     enter_call
       match d_want c with
       | WMsg => ddrive (dfuel c) c
@@ -409,7 +429,6 @@ Section DMachine.
 
   Definition dafter_K12 (c : dconn) : dconn :=
     if negb (d_alive c) then c else
-    let c := set_frames c 0 in
     enter_call
       match d_want c with
       | WMsg => ddrive_K12 (dfuel c) c
@@ -460,6 +479,30 @@ Section DMachine.
           end
     end.
 
+  (* the same with the warning-alert case calling retryReadRecord (before bfc7028, finding K15):
+     the retry enters a new frame of readRecordOrCCS; every frame of that recursion returns
+     together when the innermost one does *)
+  Definition process_K15 (c0 : dconn) : dconn * act := process_with dretry_or_die_K15 c0.
+  Definition dafter_K15 (c : dconn) : dconn :=
+    if negb (d_alive c) then c else dafter (set_frames c 0).
+
+  Fixpoint drun_K15 (fuel : nat) (c : dconn) (dgs : list dgram) : dconn * list dgram * dstop :=
+    match fuel with
+    | O => (c, dgs, DOutOfFuel)
+    | Datatypes.S k =>
+        if negb (d_alive c) then (c, dgs, DEnded) else
+        if length (d_raw c) <? dRecordHeaderLen then
+          if grown c then drun_K15 k (dafter_K15 c) dgs else
+          match dgs with
+          | [] => (c, [], DBlocked)
+          | d :: t => drun_K15 k (load c d) t
+          end
+        else
+          match process_K15 c with
+          | (c1, Continue) => drun_K15 k c1 dgs
+          | (c1, Return) => drun_K15 k (dafter_K15 c1) dgs
+          end
+    end.
 
   (* bytes still to be consumed, counted so that every iteration lowers the measure *)
   Definition dg_size (d : dgram) : nat :=
